@@ -74,6 +74,8 @@ RULES = [
  ('written with leading zeros in a formula compiles', 'C02', 'number-literal/leading-zeros-* (=007, =ABS(007): python rejects the literal)'),
  ('takes a numpy number for the python number it holds', 'C10', 'arith/nonfinite-result + power/nonfinite-result + compare/result-type-numpy.bool (numpy.float64 operand: x/0 gave inf, a comparison gave numpy.bool)'),
  ('generator of addresses gives its values also when iterative', 'C05', 'generator-of-addresses-differs (workbook saved with iterative calculation on: the generator was used up by the first pass, evaluate returned ())'),
+ ('written over a formula cell replaces the formula', 'C09', 'after-repair-differs/after-a-write-to-a-former-precedent/plain/* (the overwritten failing cell failed again after a write to a cell its former formula read)'),
+ ('only a constant of the math module', 'C09', 'first-failure-is-not-a-pycel-error/*/nosuch-constant/* (=TAU(...): bare TypeError from inspect instead of UnknownFunction)'),
  ('an array and an error value', 'C13', 'array-formula-member-not-pointwise/array-with-error-valued-scalar'),
 ]
 
